@@ -20,7 +20,7 @@ def pool(rng, n):
         elif r < 0.37:
             out.append(("dm", C02.recipe(rng, rng.randrange(3), rng.choice([1, 3, 9, 20, 44, 86, 150, 204, 300])), ()))
         elif r < 0.55:
-            out.append(("aztec", bytes(rng.choice(b"abcXYZ 0123.,!\x80\xff") for _ in range(rng.choice([0, 1, 4, 15, 40, 120, 300]))), (rng.choice([0, 23, 33, 50]), rng.choice([0, 0, -2, 3, 7]))))
+            out.append(("aztec", bytes(rng.choice(b"abcXYZ 0123.,!\x80\xff") for _ in range(rng.choice([0, 1, 3, 5, 8, 12, 15, 40, 120, 300]))), (rng.choice([0, 23, 33, 50]), rng.choice([0, 0, 0, -1, 1, -2, 2, -4, 3, 7]))))
         elif r < 0.68:
             out.append(("pdf", bytes(rng.choice(b"abcXYZ 0123456789.,;\x80") for _ in range(rng.choice([0, 2, 9, 30, 100, 400]))), (rng.randrange(9),)))
         else:
